@@ -159,6 +159,7 @@ fn run_check(id: &str) -> i32 {
                 "C02" => seq_inc::check_c02(&mut rep),
                 "C03" => {
                     seq_inc::check_c03(&mut rep);
+                    part(&mut rep, "phase exploration", e1::check_phases_c03);
                     binbind::bind_c03(&mut rep)
                 }
                 _ => {
